@@ -49,9 +49,10 @@ pub fn intersect_cl(c: &Circle, l: &Line) -> CircleLineIntersection {
     if d > c.r + EPS {
         CircleLineIntersection::None
     } else if d > c.r - EPS {
+        // the tangent point is the foot of the perpendicular from the centre to the line
         let ort = Point::new(l.a, l.b);
         let ort = ort / ort.len();
-        CircleLineIntersection::Touch(ort * c.r)
+        CircleLineIntersection::Touch(c.c - ort * (l.a * c.c.x + l.b * c.c.y + l.c))
     } else {
         let mut ort = Point::new(l.a, l.b);
         if ort.len() != 0.0 {
